@@ -37,13 +37,50 @@ RULE = ('generated error files: random bodies (n in 1..40, 0..30 errors), header
         'value, ints / bools / numpy.float64 equal to it, the adjacent doubles, relative and absolute offsets 1e-16..1e-6, '
         '2**-50..2**-40, the same decimal number computed differently (0.1+0.2 against 0.3, x*3/3, 1-(1-x), 15/12/9 '
         'digit prints, float32 rounding) for generate and probability_distribution: served iff equal as numbers. '
+        'The file TEXT as a class (the model receives the text as code points and splits it into lines itself: \\n, \\r\\n, '
+        'lone \\r and nothing else): well-formed files whose comments (after //), blank lines, whitespace before //, label '
+        'and extra header strings (raw where JSON allows, escaped otherwise; nested) hold characters that are legal where '
+        'they stand - VT, FF, FS/GS/RS/US, NUL, ESC, DEL, C1 controls, NEL, NBSP, Unicode spaces, U+2028/U+2029, zero-width '
+        'and bidi controls, inner BOM, noncharacters, non-BMP - with terminators \\n / \\r\\n / \\r / mixed and a last line '
+        'with or without one, written in the reader\'s encoding: they must open, expose label / extras unchanged and replay '
+        'the body; BOM at the start, \\r inside a comment, non-JSON whitespace next to JSON, raw controls in a JSON string are '
+        'compared with the model only. Comment rule whitespace swept code point by code point; line splitting of the io '
+        'layer compared with the model on random texts. '
         'non-trivial = file with a body or a malformed construct')
 
 WS = [' ', '\t', '  ', ' \t ']   # JSON whitespace only before JSON values; no \r (newline translation is the OS layer)
 
 
 def hexs(s):
-    return s.encode('latin-1').hex() or '-'
+    """opaque injective rendering of a string: latin-1 hex; strings with code points above U+00FF: 'U' + utf-8 hex"""
+    try:
+        return s.encode('latin-1').hex() or '-'
+    except UnicodeEncodeError:
+        return 'U' + s.encode('utf-8', 'surrogatepass').hex()
+
+
+def text3(s):
+    """a text as code points for the model: six hex digits per character"""
+    return ''.join('%06x' % ord(c) for c in s) or '-'
+
+
+def usplit(text):
+    """the lines of a text file (the format is newline-delimited; files are opened in text mode with universal
+    newlines): a line ends at \\n, \\r\\n or a lone \\r and at NOTHING else; written by the harness itself (neither
+    str.splitlines nor the io layer)"""
+    out, cur, i = [], [], 0
+    while i < len(text):
+        c = text[i]
+        if c == '\n' or c == '\r':
+            out.append(''.join(cur)); cur = []
+            if c == '\r' and i + 1 < len(text) and text[i + 1] == '\n':
+                i += 1
+        else:
+            cur.append(c)
+        i += 1
+    if cur:
+        out.append(''.join(cur))
+    return out
 
 
 def pack_bits(v):
@@ -357,6 +394,139 @@ def gen_string_file(rng):
                  'calls': calls, 'start': start}
 
 
+# ---- file TEXT as a class: characters that are legal where they stand, line terminators -------------------------------
+# The format is newline-delimited JSON + // comments, opened in text mode (locale encoding, universal newlines): a line ends
+# at \n, \r\n or a lone \r and nowhere else.  Inside a comment ANY other character is legal; inside a JSON string any
+# character >= U+0020 except " and \ may stand raw (controls as \uXXXX / \f / \b escapes).  So form feed, vertical tab,
+# FS/GS/RS/US, NUL, ESC, DEL, C1 controls, NEL (U+0085), NBSP, the Unicode spaces, LINE / PARAGRAPH SEPARATOR (U+2028/9),
+# zero-width characters, a BOM that is not at the start of the file, bidi controls, non-BMP characters are ordinary contents
+# of comments and strings, and whitespace in the sense of the comment rule (\s of a str pattern) may precede //.
+def _enc():
+    import locale
+    return locale.getpreferredencoding(False)      # what open(filename) of the reader uses
+
+
+def _encodable(ch):
+    try:
+        ch.encode(_enc())
+        return True
+    except (UnicodeEncodeError, LookupError):
+        return False
+
+
+LINE_BOUNDARY_ONLY_FOR_SPLITLINES = ['\x0b', '\x0c', '\x1c', '\x1d', '\x1e', '\x85', '\u2028', '\u2029']
+PY_SPACES = ['\t', '\x0b', '\x0c', '\x1c', '\x1d', '\x1e', '\x1f', ' ', '\x85', '\xa0', '\u1680', '\u2000', '\u2003',
+             '\u2009', '\u200a', '\u2028', '\u2029', '\u202f', '\u205f', '\u3000']
+OTHER_CONTROLS = ['\x00', '\x01', '\x07', '\x08', '\x0e', '\x1a', '\x1b', '\x7f', '\x80', '\x8d', '\x9f', '\xad', '\u200b',
+                  '\u200d', '\u200e', '\u202e', '\u2060', '\ufeff', '\ufffe', '\uffff', '\u180e', '\ue000']
+PLAIN_NON_ASCII = ['\xe9', '\xdf', '\u03c0', '\u4e2d', '\u0301', '\U0001f600', '\U0010ffff', '\xb5', '\u2264']
+TEXT_PIECES = ['page 1', 'page 2', 'x', '', 'Biased (bias=10)', '{"a": 1}', '// c', '["00", 2]', 'col', ' ', 'a b', '{',
+               '"', '\\', 'n', '//', '{"label": "x"}', '0.25', 'null']
+
+
+def _exotic(rng, in_json_string):
+    """a text with 1..3 exotic-but-legal characters between ordinary pieces; (text, classes used)"""
+    out, used = [rng.choice(TEXT_PIECES)], []
+    for _ in range(rng.choice([1, 1, 1, 2, 3])):
+        grp = rng.choice(['boundary', 'boundary', 'boundary', 'space', 'control', 'plain'])
+        ch = rng.choice({'boundary': LINE_BOUNDARY_ONLY_FOR_SPLITLINES, 'space': PY_SPACES, 'control': OTHER_CONTROLS,
+                         'plain': PLAIN_NON_ASCII}[grp])
+        if not _encodable(ch):
+            ch = rng.choice(['\x0b', '\x0c', '\x1c', '\x1d', '\x1e', '\x1f', '\x7f', '\x00'])
+        used.append(grp)
+        out += [ch * rng.choice([1, 1, 2]), rng.choice(TEXT_PIECES)]
+    return ''.join(out), used
+
+
+def gen_text_file(rng):
+    """the file TEXT as a class: exotic-but-legal characters in comments (after // and, as far as they are whitespace of
+    the comment rule, before it), in blank lines, in the label and in extra header strings (raw where JSON allows it,
+    escaped otherwise; directly or nested); line terminators \n / \r\n / \r / mixed, last line with or without one.
+    Variants that are NOT well-formed (model agreement only, no claim): BOM at the start of the file, a \r in the middle
+    of a comment (it ends the line), non-JSON whitespace next to a JSON value, raw control characters in a JSON string."""
+    n = rng.choice([1, 2, 3, 5])
+    m = rng.choice([0, 1, 2, 3, 5, 8])
+    p = rng.choice([0.1, 0.25, 0.5])
+    variant = rng.choice(['wellformed'] * 7 + ['bom', 'cr-inside', 'non-json-space', 'raw-control-in-string'])
+
+    def string():
+        v, used = _exotic(rng, True)
+        raw = json.dumps(v, ensure_ascii=rng.random() < 0.35)      # raw where JSON allows it / all escaped
+        return raw, v
+
+    def value():
+        raw, v = string()
+        shape = rng.choice(['s', 's', 's', 's', 'list', 'obj', 'key'])
+        if shape == 's':
+            return raw, v
+        if shape == 'list':
+            raw2, v2 = string()
+            return '[{}, 1, {}]'.format(raw, raw2), [v, 1, v2]
+        if shape == 'obj':
+            return '{{"k": {}}}'.format(raw), {'k': v}
+        return '{{{}: 1}}'.format(raw), {v: 1}
+    items = [('probability', json.dumps(p), p)]
+    raw, v = string()
+    items.append(('label', raw, v))
+    if rng.random() < 0.4:
+        items.append(('probability_distribution', '[0.9, 0.05, 0.03, 0.02]', [0.9, 0.05, 0.03, 0.02]))
+    for k in rng.sample(EXTRA_NAMES, rng.choice([0, 1, 1, 2, 3])):
+        raw, v = value()
+        items.append((k, raw, v))
+    header = {k: v for k, _, v in items}
+    rng.shuffle(items)
+    lines = []
+    while items:
+        k = rng.randint(1, len(items))
+        lines.append('{' + ', '.join('{}: {}'.format(json.dumps(key), raw) for key, raw, _ in items[:k]) + '}')
+        items = items[k:]
+    body = [pack_bits([1 if rng.random() < 0.3 else 0 for _ in range(2 * n)]) for _ in range(m)]
+    lines += [json.dumps(b) for b in body]
+
+    def space():
+        return ''.join(c for c in (rng.choice(PY_SPACES) for _ in range(rng.choice([0, 0, 1, 1, 2, 3]))) if _encodable(c))
+
+    def filler():
+        r = rng.random()
+        if r < 0.2:
+            return space()                                           # blank line (whitespace of the comment rule)
+        return space() + '//' + _exotic(rng, False)[0]               # comment line
+    out = []
+    for l in lines:
+        while rng.random() < 0.4:
+            out.append(filler())
+        out.append((rng.choice(WS) if rng.random() < 0.15 else '') + l + (rng.choice(WS) if rng.random() < 0.15 else ''))
+    while rng.random() < 0.4:
+        out.append(filler())
+    if not any('//' in l and not l.lstrip(' \t').startswith(('{', '[')) for l in out):
+        out.insert(rng.randrange(len(out) + 1), filler())
+    kind = 'wellformed'
+    if variant == 'cr-inside':
+        i = rng.randrange(len(out)); j = rng.randrange(len(out[i]) + 1)
+        out[i] = out[i][:j] + '\r' + out[i][j:]; kind = 'exotic:cr-inside'
+    elif variant == 'non-json-space':
+        i = rng.choice([k for k, l in enumerate(out) if l in lines or l.strip(' \t') in lines])
+        sp = rng.choice([c for c in PY_SPACES if c not in ' \t' and _encodable(c)])
+        out[i] = (sp + out[i]) if rng.random() < 0.5 else (out[i] + sp); kind = 'exotic:non-json-space'
+    elif variant == 'raw-control-in-string':
+        i = rng.choice([k for k, l in enumerate(out) if '"label"' in l and l.lstrip(' \t').startswith('{')])
+        out[i] = out[i].replace('"label": "', '"label": "' + rng.choice(['\x0c', '\x0b', '\t', '\x1c', '\x00', '\x1f']), 1)
+        kind = 'exotic:raw-control-in-string'
+    term = rng.choice(['\n', '\n', '\r\n', '\r', 'mixed'])
+    text = ''.join(l + (rng.choice(['\n', '\r\n', '\r']) if term == 'mixed' else term) for l in out)
+    if rng.random() < 0.2:                                           # last line without a terminator
+        text = text[:-2] if text.endswith('\r\n') else text[:-1]
+    if variant == 'bom' and _encodable('\ufeff'):
+        text = '\ufeff' + text; kind = 'exotic:bom'
+    start = min(rng.choice([0, 0, 0, 1, m]) if m else 0, m)
+    calls = [('l',)] + [('x', k) for k in header if k not in ('probability', 'label', 'probability_distribution')]
+    calls += [('x', 'nope'), ('d', p)]
+    calls += [('g', n, p)] * (m - start + 1)
+    rng.shuffle(calls)
+    return usplit(text), {'n': n, 'm': m, 'p': p, 'kind': kind, 'cls': 'file-text', 'header': header, 'calls': calls,
+                          'start': start, 'text': text, 'terminator': repr(term)}
+
+
 # ---- requested PROBABILITY values as a class ---------------------------------------------------------------------------
 # "refuses a probability … that disagrees with the file": only a requested value EQUAL (==, as numbers) to the header value
 # may be served; a value one ulp away, a differently rounded decimal computation, a tiny relative offset all disagree.
@@ -460,7 +630,16 @@ def class_monitor(ctx, lines, info, start, calls, impl):
     if impl == want:
         return
     inp = {'lines': lines, 'start': str(start), 'calls': [[_plain(x) for x in c] for c in calls], 'class': info['cls']}
+    if 'text' in info:
+        inp.update(text=info['text'], encoding=_enc())
     if not impl.startswith('open=ok'):
+        if info['cls'] == 'file-text':
+            ctx.monitor_fail('a well-formed error file is rejected ({}): its comments / blank lines / header strings '
+                             'contain characters that are legal where they stand and are not line terminators of the file '
+                             '(a line ends at \\n, \\r\\n or \\r only): {}'.format(impl, ' '.join(sorted(
+                                 'U+%04X' % ord(ch) for ch in set(info['text']) if ord(ch) > 126 or ord(ch) < 32 and
+                                 ch not in '\r\n\t'))), dict(inp, header=info['header']))
+            return
         ctx.monitor_fail('a well-formed error file is rejected ({}): its header strings contain comment-like / structural '
                          'characters, which are ordinary string contents (a comment is // at the start of a line)'.format(
                              impl), dict(inp, header=info['header']))
@@ -675,6 +854,17 @@ def wire_lines(lines):
     return '|'.join(parts) if parts else '.'
 
 
+def write_case(path, lines, text=None):
+    """write the file: the given text in the encoding the reader's open(filename) uses, byte for byte (no newline
+    translation); without a text: the lines, each terminated by \\n"""
+    if text is None:
+        with open(path, 'w', encoding='latin-1', newline='') as f:
+            f.write(''.join(l + '\n' for l in lines))
+    else:
+        with open(path, 'wb') as f:
+            f.write(text.encode(_enc()))
+
+
 class FakeCode:
     def __init__(self, n):
         self.n_k_d = (n, 1, None)
@@ -742,6 +932,9 @@ def run(ctx):
             cases.append(gen_string_file(rng))
         for _ in range(ctx.scale(150, 2000)):
             cases.append(gen_prob_file(rng))
+        # the file TEXT as a class: exotic-but-legal characters in comments / blank lines / header strings, terminators
+        for _ in range(ctx.scale(500, 6000)):
+            cases.append(gen_text_file(rng))
         # repo fixtures
         fx = os.path.join(os.environ.get('QECSIM_REPO', '/repo'), 'tests', 'models',
                           'test_generic_file_error_model_files')
@@ -793,17 +986,22 @@ def run(ctx):
             if 'calls' in info:
                 calls = list(info['calls'])
             path = os.path.join(tmp, 'f.jsonl')
-            with open(path, 'w', encoding='latin-1', newline='') as f:
-                f.write(''.join(l + '\n' for l in lines))
+            write_case(path, lines, info.get('text'))
             impl = drive(path, start, calls, info['header'])
             cw = ','.join(('g{}:{}'.format(c[1], rat(Fraction(float(c[2])))) if c[0] == 'g' else
                            'd' + rat(Fraction(float(c[1]))) if c[0] == 'd' else 'l' if c[0] == 'l' else 'x' + hexs(c[1]))
                           for c in calls) or '.'
             sw = 'X' if start == 'X' else str(int(start))
-            line = 'c18 run {} {} {}'.format(sw, wire_lines(lines), cw)
-            ctx.case(line, impl, nontrivial=(info['m'] > 0 or info['kind'] != 'wellformed'),
-                     meta={'kind': info['kind'], 'lines': lines, 'start': sw,
-                           'calls': [[_plain(x) for x in c] for c in calls], 'n': n})
+            if 'text' in info:      # the model splits the text into lines itself; one json.loads token per line
+                line = 'c18 runtext {} {} {} {}'.format(sw, text3(info['text']),
+                                                        '|'.join(tok_of(l) for l in lines) or '.', cw)
+            else:
+                line = 'c18 run {} {} {}'.format(sw, wire_lines(lines), cw)
+            meta = {'kind': info['kind'], 'lines': lines, 'start': sw,
+                    'calls': [[_plain(x) for x in c] for c in calls], 'n': n}
+            if 'text' in info:
+                meta.update(text=info['text'], cls=info['cls'])
+            ctx.case(line, impl, nontrivial=(info['m'] > 0 or info['kind'] != 'wellformed'), meta=meta)
             ctx.count('kind', info['kind'].split(':')[0]); ctx.count('open', impl.split()[0])
             if 'cls' in info:
                 ctx.count('class', info['cls'].split(':')[0])
@@ -819,6 +1017,15 @@ def run(ctx):
                             ctx.count('declared-data', 'no data' if have == 0 and r[1] else 'fewer bits than declared'
                                       if have < r[1] else 'whole bytes beyond declared' if have >= r[1] + 8 else
                                       'exact bytes')
+                if info['cls'] == 'file-text':
+                    ctx.count('text-variant', info['kind']); ctx.count('text-terminator', info['terminator'])
+                    for ch in set(info['text']):
+                        if ch in LINE_BOUNDARY_ONLY_FOR_SPLITLINES or ch in PY_SPACES and ch not in ' \t' or ord(ch) > 126 \
+                                or ord(ch) < 32 and ch not in '\r\n\t':
+                            ctx.count('text-char', 'U+%04X' % ord(ch))
+                    if info['kind'] == 'wellformed':
+                        class_monitor(ctx, lines, info, start, calls, impl)
+                    continue
                 if info['cls'] in ('header-strings', 'requested-probability'):
                     class_monitor(ctx, lines, info, start, calls, impl)
                     continue
@@ -888,6 +1095,28 @@ def run(ctx):
             import re
             rx = re.compile(r'^\s*(//.*)?$')
             ctx.case('c18 comment ' + hexs(raw), str(int(bool(rx.match(raw + '\n')))))
+        # the whitespace of the comment rule (\\s of a str pattern), code point by code point: alone, before //, before text
+        cps = list(range(0, 0x100)) + [0x1680, 0x180e, 0x2028, 0x2029, 0x202f, 0x205f, 0x2060, 0x3000, 0xfeff, 0xfffe] + \
+            list(range(0x2000, 0x2010))
+        if not ctx.quick():
+            cps = list(range(0, 0xd800)) + list(range(0xe000, 0x11000)) + [0x1f600, 0xe0020, 0x10ffff]
+        for cp in cps:
+            if cp in (10, 13):
+                continue
+            for raw in (chr(cp), chr(cp) + '// x', ' ' + chr(cp) + '\t//', chr(cp) + 'x', '//' + chr(cp) + 'x'):
+                ctx.case('c18 commenttext ' + text3(raw), str(int(bool(rx.match(raw + '\n')))), nontrivial=False)
+        # line splitting on its own: what iterating over the open file yields (real io layer) against the model
+        for it in range(ctx.scale(150, 2000)):
+            k = rng.randint(0, 12)
+            txt = ''.join(rng.choice(['a', '//', ' ', '\n', '\r', '\r\n', '\n', '\r', '\x0b', '\x0c', '\x1c', '\x1d', '\x1e',
+                                      '\x85', '\u2028', '\u2029', '\x00', '\x1a']) for _ in range(k))
+            txt = ''.join(c for c in txt if _encodable(c))
+            path = os.path.join(tmp, 's.txt')
+            write_case(path, None, txt)
+            with open(path) as fh:
+                got = [l for l in fh]
+            ctx.case('c18 splittext ' + text3(txt), '{}:{}'.format(len(got), ','.join(
+                str(len(l) - (1 if l.endswith('\n') else 0)) for l in got)), nontrivial=False)
     finally:
         shutil.rmtree(tmp, ignore_errors=True)
     return ctx.finish(RULE, search=search)
@@ -911,6 +1140,9 @@ def search(m):
             return dict(fail, lines=h['lines'], models=h['models'], steps=h['steps'], probability=h['p'],
                         qubits=h['n'], fresh_interpreter=where)
         return None
+    if str(meta.get('kind')).startswith('exotic'):
+        return None      # not claimed well-formed or malformed (BOM, \\r inside a comment, non-JSON whitespace): agreement only
+    extra = {'text': meta['text'], 'encoding': _enc()} if 'text' in meta else {}
     if meta.get('kind') == 'wellformed' and m['impl'].startswith('open=ok') and m['model'].startswith('open=ok'):
         a = m['impl'][8:].split('|'); b = m['model'][8:].split('|')
         for i, (x, y) in enumerate(zip(a, b)):
@@ -919,10 +1151,10 @@ def search(m):
                     return None
                 return {'what': 'file error model does not replay the file faithfully: call {} returned {} where the '
                                 'file dictates {}'.format(i, x[:80], y[:80]),
-                        'lines': meta.get('lines'), 'start': meta.get('start'), 'calls': meta.get('calls')}
+                        'lines': meta.get('lines'), 'start': meta.get('start'), 'calls': meta.get('calls'), **extra}
     if meta.get('kind') == 'wellformed' and m['impl'].split()[0] != m['model'].split()[0]:
         return {'what': 'well-formed file: construction outcome {} but the file dictates {}'.format(
-            m['impl'].split()[0], m['model'].split()[0]), 'lines': meta.get('lines'), 'start': meta.get('start')}
+            m['impl'].split()[0], m['model'].split()[0]), 'lines': meta.get('lines'), 'start': meta.get('start'), **extra}
     if meta.get('kind') and meta['kind'] != 'wellformed' and m['model'].split()[0] != 'open=ok' and \
             m['impl'].startswith('open=ok'):
         return {'what': 'malformed file ({}) accepted'.format(meta['kind']), 'lines': meta.get('lines'),
@@ -947,6 +1179,25 @@ def replay(ctx, path):
                 bad += bool(f)
                 continue
             mm = v.get('first_mismatch')
+            if not mm and isinstance(inp, dict) and inp.get('class') == 'file-text' and 'text' in inp:
+                fpath = os.path.join(tmp, 'r.jsonl')
+                write_case(fpath, None, inp['text'])
+                calls = [tuple(c) for c in inp['calls']]
+                hdr = inp.get('header')
+                if hdr is None:
+                    hdr = {}
+                    for l in inp['lines']:
+                        try:
+                            o = json.loads(l)
+                            if isinstance(o, dict):
+                                hdr.update(o)
+                        except ValueError:
+                            pass
+                got = drive(fpath, int(inp['start']), calls, hdr)
+                want = expected_wellformed(usplit(inp['text']), hdr, int(inp['start']), calls, float(hdr['probability']))
+                print('replay file-text case ->', 'FAILS: ' + got[:100] if got != want else 'the current tree replays it')
+                bad += got != want
+                continue
             if not mm:
                 continue
             meta = mm.get('meta') or {}
@@ -960,8 +1211,7 @@ def replay(ctx, path):
                     except ValueError:
                         pass
                 fpath = os.path.join(tmp, 'r.jsonl')
-                with open(fpath, 'w', encoding='latin-1', newline='') as f:
-                    f.write(''.join(l + '\n' for l in meta['lines']))
+                write_case(fpath, meta['lines'], meta.get('text'))
                 sw = meta.get('start', '0')
                 mm = dict(mm, impl=drive(fpath, 'X' if sw == 'X' else int(sw), [tuple(c) for c in meta['calls']], hdr))
                 if mm['impl'] == mm['model']:
